@@ -246,6 +246,19 @@ pub fn selftest() -> Result<(), String> {
 /// function of the scenario (found with seeded change C15-r2-1: the minimised scenario failed in
 /// the long-running parent and passed in the fresh replay process).
 pub fn warmup() {
+    // The regex crate keeps its per-regex scratch space in a pool sharded by (thread id mod 8);
+    // a thread that finds its shard empty builds a fresh cache, which creates `HashMap`s and thereby
+    // advances that thread's `RandomState` counter. So the first threads of a process behave
+    // differently from later ones until every shard of every pool holds a cache: run the warm-up
+    // body on enough consecutive threads to reach that steady state (found with seeded change
+    // C06-r3-1, whose minimised scenario reproduced after 58 executions in the minimiser's process
+    // and not as the first execution of a fresh one).
+    for _ in 0..24 {
+        warmup_once();
+    }
+}
+
+fn warmup_once() {
     use cfgrammar::yacc::{YaccGrammar, YaccKind, YaccOriginalActionKind};
     let h = std::thread::spawn(|| {
         let g = "%grmtools{yacckind: Grmtools}\n%start A\n%token X\n%left 'a'\n%epp X \"x\"\n%avoid_insert X\n%expect 0\n%expect-rr 0\n%parse-param p: u64\n%%\nA -> u64: A 'a' { 0 } | X { 1 } | { 2 };\n%%\nfn f() {}\n";
